@@ -72,3 +72,19 @@ Print Assumptions C02_source_wrapper_of_each_primitive.
 Theorem C02_source_size_tables_agree : stmt_src_sizes.
 Proof. exact src_sizes. Qed.
 Print Assumptions C02_source_size_tables_agree.
+
+(* the byteswap overloads of /repo's current sbepp.hpp as clang sees them
+   (SrcExprs.v, regenerated on every run): each reverses exactly the bytes of
+   its own width, so the memcpy implementation of get_primitive decodes the
+   schema byte order *)
+From Coq Require Import String.
+From Sbepp Require Import CExpr SrcExprs SrcExprsProofs.
+Import ListNotations.
+Local Open Scope string_scope.
+
+Theorem C02_source_byteswap_decodes : forall (be : bool) (bs : list Z),
+  bytes_ok bs = true -> List.length bs = 2%nat \/ List.length bs = 4%nat \/ List.length bs = 8%nat ->
+  (if be then effs_eval [("v", dec_le bs)] (src_byteswap (List.length bs)) else Some [dec_le bs])
+  = Some [dec be bs].
+Proof. exact src_byteswap_get_primitive. Qed.
+Print Assumptions C02_source_byteswap_decodes.
